@@ -813,8 +813,42 @@ impl<'a> Engine<'a> {
         // ---- C13 (sealing never touches stakes)
         self.check_stakes(&child, Some(a));
         if !ambiguous.is_empty() {
-            run.outcome("seal:ambiguous-request-present(no exact comparison; branch not explored further)");
-            return StepOut::Pruned;
+            // no exact comparison was made for this block: the model is re-synchronised from the real state (coins by every
+            // candidate id, pools by every known key, scalars from the header) and the search goes on from there
+            run.outcome("seal:ambiguous-request-present(invariants only; model re-synchronised)");
+            let mut m = child.model.clone();
+            let mut ids: BTreeSet<CoinID> = n.model.coins.keys().cloned().collect();
+            ids.extend(m.coins.keys().cloned());
+            for tx in &block {
+                for i in 0..=tx.outputs.len().min(255) {
+                    ids.insert(tx.output_coinid(i as u8));
+                }
+            }
+            ids.insert(CoinID::proposer_reward(BlockHeight(n.model.height)));
+            m.coins.clear();
+            for id in ids {
+                if let Some(c) = sealed.coin(id) {
+                    m.coins.insert(id, c);
+                }
+            }
+            let keys: Vec<PoolKey> = m.seen_pool_keys.iter().chain(builtin_pool_keys().iter()).filter_map(canon).collect();
+            m.pools.clear();
+            for k in keys {
+                if let Some(p) = sealed.pool(k) {
+                    m.pools.insert(k, p);
+                }
+            }
+            m.fee_pool = after.header.fee_pool.0;
+            m.fee_multiplier = after.header.fee_multiplier;
+            m.dosc_speed = after.header.dosc_speed;
+            if after.coins.len() != m.coins.len() || after.pools.len() != m.pools.len() {
+                // something in the real trees cannot be attributed: stop here rather than continue with a partial model
+                run.outcome("seal:resync-incomplete(branch not explored further)");
+                return StepOut::Pruned;
+            }
+            let mut c2 = child.clone();
+            c2.model = m;
+            return StepOut::Next(c2);
         }
         if ok {
             StepOut::Next(child)
@@ -954,6 +988,12 @@ impl<'a> Engine<'a> {
         }
         *allowed.entry(Denom::Mel).or_default() += BigUint::from(rep.peg_mel_issued);
         *allowed.entry(Denom::Sym).or_default() += BigUint::from(rep.peg_sym_issued) + BigUint::from(rep.subsidy_sym);
+        // grandfathered window (mainnet/testnet below 978392): the code keeps the historical rule under which a deposit's right-hand
+        // coin survives; that duplication is deliberate and excluded here (DESIGN.md §5)
+        for (d, v) in &rep.legacy_deposit_right_kept {
+            *allowed.entry(*d).or_default() += BigUint::from(*v);
+            run.outcome("seal:legacy-deposit-window-allowance");
+        }
         // liquidity tokens: issued only against a deposit (how many is C15's and C16's subject, not conservation's)
         let mut liq_issuable: BTreeSet<Denom> = BTreeSet::new();
         for d in &rep.deposits {
